@@ -87,6 +87,7 @@ struct WorldCfg {
     int wr_mode = 0;       // 0 full, 1 short (half), 2 zero, 3 (size_t)-1
     int flush_err = 0;     // flush returns SCPI_RES_ERR
     bool with_units = true;
+    bool custom_units = false;   // the application's own unit table: the standard entries plus entries spelled in mixed case ("mVpp")
     bool with_control = true;
     bool with_error_cb = true;
     bool with_flush = true;
@@ -107,6 +108,9 @@ struct World {
     // command table
     std::deque<std::string> patterns;
     std::vector<scpi_command_t> table;
+    std::vector<scpi_command_t> alt_table;   // a second command set the application can point the context at (command-language switch)
+    bool filling_alt = false;                // add_command & co. fill alt_table while set
+    void use_alt_table(bool alt) { ctx->cmdlist = alt ? alt_table.data() : table.data(); }
     std::vector<Handler> handlers;
     bool table_sealed = false;
 
@@ -130,6 +134,7 @@ struct World {
     std::function<void(World &, const char *where)> observer;       // after each handler, at unit/message boundaries
     std::function<void(World &, int val)> srq_observer;             // inside control(SRQ)
     std::function<void(World &, int code)> err_observer;            // inside error callback
+    std::function<void(World &)> write_hook;                        // inside the write callback, after the bytes were taken (firmware reacting to its own transmit path)
 
     explicit World(const WorldCfg &c);
     ~World();
